@@ -148,6 +148,9 @@ type EmbTyped struct {
 	Extra string
 }
 
+type c20M1Ptr *M1
+type c20Emb1Ptr *Emb1
+
 func c20Family() []c20Item {
 	a1 := A1{"A1.Name", 1101, "A1.hidden"}
 	a2 := A2{1202, "A2.Name", "A2.Extra"}
@@ -172,7 +175,7 @@ func c20Family() []c20Item {
 		{"Emb1", e1, sNames, "struct"}, {"*Emb1", &e1, sNames, "struct"}, {"Emb2", e2, sNames, "struct"}, {"*Emb2", &e2, sNames, "struct"}, {"Deep2", d2, sNames, "struct"}, {"*Deep2", &d2, sNames, "struct"},
 		{"Shadow", sh, sNames, "struct"}, {"PEmb", pe, sNames, "struct"}, {"*PEmb", &pe, sNames, "struct"}, {"PEmbNil", pn, sNames, "struct"}, {"*PEmbNil", &pn, sNames, "struct"},
 		{"M1", m1, sNames, "struct"}, {"*M1", &m1, sNames, "struct"}, {"M2", m2, sNames, "struct"}, {"*M2", &m2, sNames, "struct"}, {"EmbM", em, sNames, "struct"}, {"*EmbM", &em, sNames, "struct"},
-		{"nil*A1", nilA1, []string{"Name", "Count"}, "struct"},
+		{"nil*A1", nilA1, []string{"Name", "Count"}, "struct"}, {"named-ptr-M1", c20M1Ptr(&m1), sNames, "struct"}, {"named-ptr-Emb1", c20Emb1Ptr(&e1), sNames, "struct"},
 		{"map-iface", map[string]interface{}{"Name": "mi.Name", "k": "mi.k", "Count": 2101, "a b": "mi.ab"}, []string{"Name", "k", "Count", "Missing", "a b"}, "map"},
 		{"map-string", map[string]string{"Name": "ms.Name", "k": "ms.k"}, []string{"Name", "k", "Missing"}, "map"},
 		{"map-int", map[string]int{"Count": 2301, "k": 2302}, []string{"Count", "k", "Missing"}, "map"},
@@ -234,9 +237,11 @@ func refAttr(x interface{}, name string) (want string, assert bool) {
 			out := orig.Method(m.Index).Call(nil)
 			return fmt.Sprint(out[0].Interface()), true
 		}
-		if orig.Kind() != reflect.Ptr {
+		if orig.Kind() != reflect.Ptr || orig.Type() != reflect.PtrTo(v.Type()) {
 			if _, ok := reflect.PtrTo(v.Type()).MethodByName(name); ok {
-				return "", false // pointer-receiver method on a value: not asserted
+				// pointer-receiver method on a value, or any method of T reached through a named pointer type (type P *T has
+				// no methods of its own): not asserted
+				return "", false
 			}
 		}
 		return "", true
@@ -334,6 +339,18 @@ func (p *c20) otherForms(rec *core.Recorder, e *twig.Engine, all []c20Lookup, r 
 		}
 		for _, n := range names {
 			src := fmt.Sprintf(forms[r.Intn(len(forms))], n)
+			if r.P(1, 3) {
+				// ... or a template that runs below `include ... sandboxed` on an engine of its own with a security policy
+				core.Guard(func() {
+					se := twig.New()
+					se.EnableSandbox(twig.NewDefaultSecurityPolicy())
+					se.RegisterString("w", "{{ x."+n+" }}")
+					se.RegisterString("outer", "{% include 'w' sandboxed %}")
+					se.Render("outer", map[string]interface{}{"x": lk.item.val})
+				})
+				rec.Count("sandboxed-first-lookups", 1)
+				continue
+			}
 			core.Guard(func() {
 				if t, err := e.ParseTemplate(src); err == nil {
 					t.Render(map[string]interface{}{"x": lk.item.val})
